@@ -19,6 +19,9 @@ class PythonIdentifier(str):
         new_value = sanitize(value)
         if not skip_snake_case:
             new_value = snake_case(new_value)
+        else:
+            # Delimiters are not valid in identifiers; snake_case would have replaced them too
+            new_value = re.sub(rf"[{DELIMITERS}]", "_", new_value)
         new_value = fix_reserved_words(new_value)
 
         if not new_value.isidentifier() or value.startswith("_"):
